@@ -1,5 +1,7 @@
 package main
 
+import "strconv"
+
 // One integer decides everything: every choice in a run is drawn from one
 // xoshiro256** generator seeded (through splitmix64) from the run seed.
 
@@ -77,3 +79,5 @@ func hashStr(s string) uint64 {
 	}
 	return h
 }
+
+func itoa(i int) string { return strconv.Itoa(i) }
